@@ -39,7 +39,7 @@ func init() {
 			"distinct = distinct (category, script name or generated-feature set, outcome) signature.",
 		Assumptions: []string{
 			"bounded time is judged on CPU time of the call (getrusage, single-P child so CPU <= wall): violation only above 10 s (claimed deadline 1 s; calls between 2 s and 10 s are recorded as observations); a script still running at 10.5 s CPU is killed and counted as over the bound; the wall watchdog (60 s without CPU progress) alone never produces a violation, only an inconclusive case",
-			"memory bombs and nesting bombs are outside the claim: corpus data stay below ~50 MB / a few thousand nesting levels; for generated programs (data size not known by construction) a call during which the process's peak RSS exceeds 1 GiB is not judged on time; a child that dies with 'out of memory' or exceeds 6 GiB RSS is excluded, not judged",
+			"memory bombs and nesting bombs are outside the claim: corpus data stay below ~50 MB / a few thousand nesting levels; a call during which the process's peak RSS exceeds 512 MiB is not judged on time (this includes five-word scripts that pile up a call chain until the deadline); a child that dies with 'out of memory' or exceeds 6 GiB RSS is excluded, not judged",
 			"an unrecoverable death of the process (Go fatal error) caused by a script of modest size is a violation ('never panics the process')",
 			"no escape: print/_printregs (stdout of the controller) and load/loadstring (compile strings only) are allowed; a reachable function outside the reviewed allow-list of base/math/string/table/json functions is reported because the claimed mechanism is a closed set of opened libraries; loadfile/dofile/require are judged by probes against sentinel files and by the syscall log",
 			"round trip: numbers compare numerically; {} == [] == null where the value is an empty table; JSON null inside lists/maps cannot be stored in a Lua table and is outside the property's quantifier (maps/lists/numbers/strings): dropped nulls are tolerated and counted, everything else must be preserved exactly",
@@ -103,9 +103,8 @@ func isOOM(stderr string) bool {
 }
 
 // judgeCommon applies monitors (a) and (b) to one executed script.
-// modest: the script's own data are small by construction (hostile corpus), so its time is judged whatever the
-// process's RSS did (garbage of the implementation is not the script's data); otherwise (generated programs) a call
-// that drives the peak RSS above 1 GiB is taken for a memory bomb and not judged on time.
+// modest: the script's own data are small by construction (hostile corpus). A call that drives the peak RSS above
+// 512 MiB is taken for a memory / nesting bomb and not judged on time, whoever wrote the script.
 func judgeCommon(res *core.CaseResult, it item, r itemResult, timeFP string, modest bool) {
 	detail := func() map[string]interface{} {
 		return map[string]interface{}{"category": it.Cat, "name": it.Name, "script": capStr(it.Script, 4000), "flavour": it.Flavour, "kind": r.Kind, "stage": r.Stage,
@@ -146,9 +145,11 @@ func judgeCommon(res *core.CaseResult, it item, r itemResult, timeFP string, mod
 		res.Inconclusive = "child process trouble: " + capStr(r.Err+" "+r.Stderr, 400)
 		return
 	}
-	if r.CPUms > cpuBoundMs && r.RSS1KB > memBombKB && !modest {
-		// the call drove the process above 1 GiB: a memory bomb, outside the claim (a controller with a usual memory
-		// limit would be OOM-killed, which the sandbox does not promise to prevent) - time not judged
+	if r.CPUms > cpuBoundMs && r.RSS1KB > memBombKB {
+		// the call drove the process above 512 MiB: a memory / nesting bomb, outside the claim (a controller with a usual
+		// memory limit would be OOM-killed, which the sandbox does not promise to prevent) - time not judged. This holds for
+		// the hostile corpus too: "local function f() return f() end return f()" is five words long and stops at the
+		// deadline, but has by then piled up a call chain whose unwinding takes seconds and more than a GiB.
 		res.Count("memory_bombs_excluded", 1)
 		res.AddSet("memory_bombs", it.Cat+"/"+it.Name)
 		return
